@@ -190,11 +190,11 @@ def check_dir(prog: Program, res: Result) -> None:
     res.ob(R, ok, fi.qualname, "weight computed for the same source/destination", "make_edge_maps is not called with the same grid, source and destination", fi.where)
     ge = prog.func(f"{EM}:get_edge_points")
     res.touch(ge)
-    d = {norm(s.targets[0]): norm(s.value) for s in walk_function(ge.node) if isinstance(s, ast.Assign)}
-    ok = d.get("source_inds", "").startswith("edge_inds[:, 0]") and d.get("destination_inds", "").startswith("edge_inds[:, 1]") \
-        and d.get("edge_sources") == "instances[:, source_inds]" and d.get("edge_destinations") == "instances[:, destination_inds]"
-    rets = [n for n in walk_function(ge.node) if isinstance(n, ast.Return)]
-    ok = ok and len(rets) == 1 and norm(rets[0].value).strip("()") == "edge_sources, edge_destinations"
+    rets = [n for n in walk_function(ge.node) if isinstance(n, ast.Return) and isinstance(n.value, ast.Tuple) and len(n.value.elts) == 2]
+    d = [norm(astq.strip_device(astq.expand_at(ge.node, e, rets[0]))) for e in rets[0].value.elts] if len(rets) == 1 else []
+    import re as _re
+    strip = lambda t: _re.sub(r"\.(to\(torch\.int(32|64)\)|long\(\)|int\(\))", "", t)
+    ok = len(d) == 2 and strip(d[0]) == "instances[:, edge_inds[:, 0]]" and strip(d[1]) == "instances[:, edge_inds[:, 1]]"
     res.ob(R, ok, ge.qualname, "sources = column 0 of edge_inds, destinations = column 1", "get_edge_points swaps or mis-indexes sources and destinations", ge.where, sample=d)
     # edge map grid: meshgrid(yv, xv, 'ij') stacked as (xx, yy)
     me = prog.func(f"{EM}:make_edge_maps")
